@@ -612,7 +612,7 @@ func generate(c *drv.Ctx) {
 	// text), so a parameter bound from another request's text is a wrong value for that request.
 	nConcReq := 512
 	if thorough {
-		nConcReq = 2048
+		nConcReq = 1024
 	}
 	concDecls := []Decl{
 		{In: "query", Name: "lim", Type: "integer", Format: "int64", Val: noVal()},
@@ -660,7 +660,7 @@ func generate(c *drv.Ctx) {
 	// (6) seeded random declarations and literals
 	n := 1500
 	if thorough {
-		n = 20000
+		n = 15000
 	}
 	for i := 0; i < n; i++ {
 		c.Case(randomCase(c.Rng))
